@@ -1,0 +1,24 @@
+//go:build verif
+// +build verif
+
+// Package verifhook provides yield points for the verification harness.
+package verifhook
+
+import "sync/atomic"
+
+var gateFn atomic.Value // func(string)
+
+// SetGate installs the function called at every yield point (nil disables).
+func SetGate(f func(name string)) {
+	if f == nil {
+		f = func(string) {}
+	}
+	gateFn.Store(f)
+}
+
+// Gate is a named yield point.
+func Gate(name string) {
+	if f, ok := gateFn.Load().(func(string)); ok && f != nil {
+		f(name)
+	}
+}
